@@ -76,6 +76,7 @@ type Graph struct {
 	Entry  *Event
 	Exit   *Event
 	Defers []*Event // registration events in source order
+	first  map[*cfg.Block]*Event
 }
 
 // Callee resolves the callee object of a call (nil for conversions and
@@ -277,6 +278,7 @@ func (f *FuncInfo) Graph() *Graph {
 			link(l, first[s])
 		}
 	}
+	g.first = first
 	if len(g.CFG.Blocks) > 0 {
 		link(g.Entry, first[g.CFG.Blocks[0]])
 	} else {
